@@ -94,7 +94,7 @@ class StateNode():
             states = node["States"]
             self.current_states_node.append(states)
             start_at = node.get("StartAt")
-            if start_at and isinstance(start_at, str):
+            if isinstance(start_at, str):  # An empty name is not found either
                 self.current_states_incoming.append([start_at])
                 if start_at not in states:
                     problems.append(
